@@ -20,22 +20,12 @@
 #include "dbimpl/world.h"
 #include "vp_names.h"
 
-#ifndef VP_STUB_VECTOR
 /* the REAL util/vector.c, its one allocator call routed to the typed pointer
    slab of kit/vp_alloc_d1.c (list "util/vector.c" in include_real) */
 void *vp_realloc_ptrs(void *ptr, size_t size);
 #define ldb_realloc vp_realloc_ptrs
 #include "util/vector.c"
 #undef ldb_realloc
-#else
-static void *vp_vec_items[8];
-void ldb_vector_init(ldb_vector_t *z) { z->items = vp_vec_items; z->length = 0; z->alloc = 8; }
-void ldb_vector_clear(ldb_vector_t *z) { z->items = NULL; z->length = 0; z->alloc = 0; }
-void ldb_vector_push(ldb_vector_t *z, const void *x) {
-  VP_ASSERT(z->length < 8, "vp-model: vector capacity");
-  z->items[z->length++] = (void *)x;
-}
-#endif
 
 #ifndef VP_N
 #define VP_N 5      /* directory entries */
